@@ -98,8 +98,9 @@ fn alphabets<T: RefRing>() -> Vec<Alph<T>> {
     ]
 }
 
-fn pick<T: RefRing>(al: &[Alph<T>], cells: usize, mult: usize, limit: usize) -> Option<&Alph<T>> {
-    al.iter().find(|a| count(a.syms.len(), cells).saturating_mul(mult) <= limit)
+/// the largest alphabet that fits; the smallest one ({., 1}) if none does
+fn pick<T: RefRing>(al: &[Alph<T>], cells: usize, mult: usize, limit: usize) -> &Alph<T> {
+    al.iter().find(|a| count(a.syms.len(), cells).saturating_mul(mult) <= limit).unwrap_or(&al[al.len() - 1])
 }
 
 // ------------------------------------------------------------------------------------------
@@ -320,13 +321,10 @@ where
         let wrong = n < 3 || wrong3;
         let na = tri_count(n, units.len(), off.len(), wrong);
         // right-hand-side alphabets per number of columns
-        let vec_alph = pick(&al, n, 2 * na, limit).unwrap_or(&al[3]);
+        let vec_alph = pick(&al, n, 2 * na, limit);
         let mut rhs: Vec<(usize, &Alph<R::Ref>)> = vec![];
         for k in 1..=maxk {
-            match pick(&al, n * k, 2 * na, limit) {
-                Some(a) => rhs.push((k, a)),
-                None => run.cap(&format!("no right-hand-side alphabet fits the budget for n={n} k={k}")),
-            }
+            rhs.push((k, pick(&al, n * k, 2 * na, limit)));
         }
         plan.push(json!({"n": n, "triangular_matrices": 2 * na, "opposite_triangle_stored_zero_variant": wrong && n >= 2,
             "vector_rhs": {"cells": vec_alph.name, "count": count(vec_alph.syms.len(), n)}, "left_solve_max_rows": left_maxk,
@@ -491,10 +489,7 @@ where
             for r in 0..=m.min(n) {
                 let free = m * n - r * r;
                 let na = tri_count(r, units.len(), off.len(), true);
-                let Some(alph) = pick(&al, free, 2 * na, limit) else {
-                    run.cap(&format!("no alphabet fits the budget for Schur {m}x{n} r={r}"));
-                    continue;
-                };
+                let alph = pick(&al, free, 2 * na, limit);
                 let nfree = count(alph.syms.len(), free);
                 plan.push(json!({"shape": format!("{m}x{n}"), "r": r, "leading_blocks": 2 * na, "other_cells": alph.name, "matrices": 2 * na * nfree}));
                 for t in [Tri::Upper, Tri::Lower] {
@@ -778,7 +773,7 @@ fn sequential_part(run: &Run) -> Value {
     // quick: i64 complete; the rings with 4 diagonal units get size 3 without the
     // "opposite triangle explicitly zero" variant, smaller right-hand-side alphabets and the
     // left solve with one row only
-    let (maxk, lim_z, lim, left, wrong3) = if th { (3, 60_000_000, 60_000_000, 3, true) } else { (2, 2_500_000, 1_100_000, 1, false) };
+    let (maxk, lim_z, lim, left, wrong3) = if th { (3, 60_000_000, 60_000_000, 3, true) } else { (2, 2_500_000, 600_000, 1, false) };
     let mut tri = vec![];
     tri.push(json!({"ring": "i64", "plan": tri_sweep::<i64>(run, &uz, maxk, maxk, lim_z, true)}));
     lap(run, "triangular i64");
@@ -789,7 +784,7 @@ fn sequential_part(run: &Run) -> Value {
     tri.push(json!({"ring": "GaussInt<i64>", "plan": tri_sweep::<GaussInt<i64>>(run, &ug, maxk, left, lim, wrong3)}));
     lap(run, "triangular GaussInt<i64>");
 
-    let slim = if th { 8_000_000 } else { 60_000 };
+    let slim = if th { 8_000_000 } else { 30_000 };
     let mut sch = vec![];
     sch.push(json!({"ring": "i64", "plan": schur_sweep::<i64>(run, &uz, slim)}));
     sch.push(json!({"ring": "Ratio<i64>", "plan": schur_sweep::<Ratio<i64>>(run, &uq, slim)}));
